@@ -15,7 +15,7 @@ for id in $ids; do
   else echo "$id: cannot express patch against HEAD"; continue; fi
   out=$(/verif/tools/try_mutant.sh $d/patch.head.diff $prop 2>&1); rc=$?
   viol=$(echo "$out" | grep -c "^VIOLATION")
-  first=$(echo "$out" | grep "oracle=" | head -1 | cut -c1-300 | sed 's/"/\\"/g')
+  first=$(echo "$out" | grep "oracle=" | head -1 | cut -c1-300 | sed 's/\\/\\\\/g; s/"/\\"/g')
   cat > $d/detection.json <<M
 {"id": "$id", "property": "$prop", "repo_head": "$head", "patch_against_head": "patch.head.diff ($how)",
  "command": "tools/try_mutant.sh seeded/$id/patch.head.diff $prop   (quick tier, VERIF_SEED=0, scratch copy of /repo with the patch)",
